@@ -550,11 +550,53 @@ def const_pow(c, q):
     return res
 
 
+# atoms whose value may be negative: a fractional power must not be distributed over them blindly
+# ((x**2)**(1/2) is |x|, not x).  Free symbols are positive by assumption A4 unless declared signed; function atoms are
+# signed unless known to be positive quantities.
+SIGNED_SYMBOLS = set(['g', 'u', 'g1', 'u1', 'epsilon', 'x', 'f', 'F'])
+POSITIVE_FNS = set(['dia', 'sig', 'usig', 'vol', 'rho', 'abs', 'len', 'iota', 'cosh'])
+
+
+def declare_signed(name):
+    SIGNED_SYMBOLS.add(name)
+
+
+def atom_positive(a):
+    t = a[0]
+    if t == 'sym':
+        return a[1] not in SIGNED_SYMBOLS
+    if t in ('pi', 'prime', 'exp', 'expq'):
+        return True
+    if t == 'pow':
+        return True             # principal root of a real base (defined only when the base is non-negative)
+    if t == 'spow':
+        return a[1] != ('neg1',) and atom_positive(a[1])
+    if t == 'fn':
+        return a[1] in POSITIVE_FNS
+    return False
+
+
 def _mono_term_pow(m, c, q):
-    """(c*m)**q for a single monomial term with rational q"""
+    """(c*m)**q for a single monomial term with rational non-integer q: exponents are multiplied only for factors that
+    are known to be positive; an even power of a signed factor becomes a power of its absolute value; an odd power of a
+    signed factor stays under the root"""
     if c < 0 and q.denominator != 1:
         raise Incomplete('negative monomial under fractional power')
-    return const_pow(c, q) * NF({mono_pow(m, q): ONE})
+    res = const_pow(c, q)
+    pos = []
+    rest = []
+    for a, e in m:
+        if atom_positive(a):
+            pos.append((a, e))
+        elif e.denominator == 1 and int(e) % 2 == 0:
+            res = res * NF.atom(('fn', 'abs', reg(NF.atom(a))), e * q)
+        else:
+            rest.append((a, e))
+    if pos:
+        res = res * NF({mono_pow(tuple(pos), q): ONE})
+    if rest:
+        res = res * NF.atom(('pow', reg(NF({tuple(rest): ONE}))), q)
+    return res
 
 
 def rat_pow(x, q):
@@ -663,6 +705,23 @@ def exp(x):
             r = r * NF.atom(('exp', m), c)
         return r
     return NF.atom(('expq', reg(x)))
+
+
+def drop_inf(x):
+    """exp(-INF) == 0 exactly (IEEE): monomials that contain exp(INF * positive) to a negative power vanish.  A positive
+    power of such an atom (exp(+inf)) is left alone (the comparison then fails, which is right: the value is inf)."""
+    def has_neg_inf(m):
+        for a, e in m:
+            if a[0] == 'exp' and e < 0:
+                inner = dict(a[1])
+                if inner.get(('sym', 'INF'), 0) > 0 and all(atom_positive(b) for b, _ in a[1]):
+                    return True
+        return False
+    if not any(has_neg_inf(m) for m in x.num):
+        return x
+    if len(x.den) != 1:
+        return x
+    return NF({m: c for m, c in x.num.items() if not has_neg_inf(m)}, x.den)
 
 
 def sqrt(x):
